@@ -21,6 +21,10 @@ pub enum Placement {
     /// a READ of the event classes is deferred during an unsolicited confirm wait and answered (with events, so that
     /// confirmation is requested) when the wait ends; the READ is repeated while THAT response awaits its confirm
     DeferredRead,
+    /// a confirm-mandatory broadcast has just been received: the response to the request reports it and asks for a
+    /// confirmation, so that even a non-READ request leaves the session in a solicited confirm wait (which may time out
+    /// before the request is repeated)
+    AfterMandatoryBroadcast,
 }
 
 #[derive(Clone, Debug, Serialize, Deserialize)]
@@ -34,6 +38,9 @@ pub enum Between {
     /// a DIRECT_OPERATE_NR with other objects arrives by broadcast (executed, never answered): it uses the outstation's
     /// buffers but is not what a retransmission of the request before it refers to
     BroadcastControl,
+    /// a fragment with a function code no outstation knows (answered with a header-only error response that is not kept):
+    /// the retransmission that follows still refers to the request before it, and its echo is that request's response
+    UnknownFunction,
 }
 
 #[derive(Clone, Debug, Serialize, Deserialize)]
@@ -141,15 +148,18 @@ impl Prop for Repeat {
         ]
     }
     fn strategy(_tier: Tier) -> BoxedStrategy<Case> {
-        let placement = prop_oneof![3 => Just(Placement::Idle), 3 => (1u8..5).prop_map(Placement::MidSeries), 1 => Just(Placement::UnsolNullWait), 2 => Just(Placement::UnsolDataWait), 1 => Just(Placement::DeferredRead)];
+        let placement = prop_oneof![3 => Just(Placement::Idle), 1 => Just(Placement::AfterMandatoryBroadcast), 3 => (1u8..5).prop_map(Placement::MidSeries), 1 => Just(Placement::UnsolNullWait), 2 => Just(Placement::UnsolDataWait), 1 => Just(Placement::DeferredRead)];
         let between = prop_oneof![
             3 => Just(Between::Nothing),
             1 => any::<u8>().prop_map(Between::WrongConfirm),
             1 => any::<u8>().prop_map(Between::Update),
             1 => (0u8..90).prop_map(Between::Advance),
+            // longer than the confirm timeout (100 ms)
+            1 => (101u8..160).prop_map(Between::Advance),
             1 => Just(Between::LinkStatus),
             1 => Just(Between::ForeignFragment),
             1 => Just(Between::BroadcastControl),
+            1 => Just(Between::UnknownFunction),
         ];
         (
             placement,
@@ -245,8 +255,14 @@ async fn do_between(
     serial: &mut u32,
     points: u8,
     outstanding_seq: Option<u8>,
+    request_seq: u8,
 ) {
     match b {
+        Between::UnknownFunction => {
+            // (a sequence number of its own, so that its error response is not taken for an echo)
+            rig.send_fragment(&[0xC0 | ((request_seq + 5) & 0x0F), 0x70]);
+            rig.settle().await;
+        }
         Between::Nothing => {}
         Between::WrongConfirm(s) => {
             // a solicited confirm whose number matches nothing outstanding
@@ -363,6 +379,20 @@ async fn run_case(case: &Case) -> CaseOut {
     let mut series_seq: Option<u8> = None;
     match &case.placement {
         Placement::Idle => out.label("placement:idle"),
+        Placement::AfterMandatoryBroadcast => {
+            out.label("placement:after_mandatory_broadcast");
+            out.nontrivial = true;
+            let f = Fragment::request(
+                (case.seq + 9) & 0x0F,
+                func::DIRECT_OPERATE_NR,
+                ra::h_prefixed8(41, 2, &[(0x22, vec![0x11, 0x22, 0])]),
+            )
+            .encode();
+            let b = rig.frame_fragment(MASTER_ADDR, 0xFFFE, &f);
+            rig.send_raw(&b);
+            rig.settle().await;
+            let _ = rig.shared.take_log();
+        }
         Placement::UnsolNullWait => {
             out.label("placement:unsol");
             out.nontrivial = true;
@@ -513,8 +543,10 @@ async fn run_case(case: &Case) -> CaseOut {
             break;
         }
         if let Some(b) = case.between.get(i as usize) {
-            do_between(&mut rig, b, &mut serial, case.points, series_seq).await;
-            if matches!(b, Between::BroadcastControl) {
+            do_between(&mut rig, b, &mut serial, case.points, series_seq, case.seq).await;
+            if matches!(b, Between::BroadcastControl | Between::UnknownFunction)
+                || matches!(b, Between::Advance(ms) if *ms >= 100)
+            {
                 // a broadcast request ends a solicited series like any new request: a READ repeated after it is a new READ
                 series_seq = None;
             }
@@ -548,7 +580,9 @@ async fn run_case(case: &Case) -> CaseOut {
             }
             // (2) answered from memory
             for r in &replies {
-                if r[0] & 0x0F == case.seq {
+                // (whatever sequence number it carries: a "response" to the repeated request that is put together from the
+                // header of one response and the objects of another is no echo either)
+                if r[0] & 0x0F == case.seq || first_reply.is_some() {
                     out.label("echo_seen");
                     if Some(*r) != first_reply.as_ref() {
                         out.fail(
